@@ -54,7 +54,15 @@ fn describe_block(bytes: &[u8]) -> String {
     let mut items = vec![];
     for page in 0..bytes.len() / PAGE {
         let off = page * PAGE;
-        if let Some(es) = BlobIndexReader::read(&bytes[off..off + PAGE]) {
+        // the real parser is run on damaged bytes here as well: a panic is an observation, not a harness failure
+        let parsed = match std::panic::catch_unwind(|| BlobIndexReader::read(&bytes[off..off + PAGE])) {
+            Ok(r) => r,
+            Err(_) => {
+                items.push(format!("X:{off}:index-reader-panicked"));
+                continue;
+            }
+        };
+        if let Some(es) = parsed {
             // an all-zero count with a matching checksum cannot occur for a zero page (its checksum is not zero)
             items.push(format!(
                 "I:{off}:{}",
